@@ -395,6 +395,40 @@ def _r10f(rep):
     rep.instance("R10f", PY, "mode_zero", str(rets), set(rets) == {"np.zeros_like(freqs)", "0.0"}, "mode_zero no longer returns zero", line=mz.lineno)
     tu = cast.load(CF)
     kfn = tu.functions["phpy_get_thermal_properties"]
-    conds = [cast.text(cast.kids(x)[0]) for x in cast.walk(kfn) if x.get("kind") == "IfStmt"]
-    rep.instance("R10f", CF, "phpy_get_thermal_properties", str(conds), conds == ["temperatures[j] > 0 && f > cutoff_frequency"],
-                 "kernel guard is not 'temperatures[j] > 0 && f > cutoff_frequency'", line=tu.line(kfn))
+    def atoms(e):
+        e = cast.strip(e)
+        if e.get("kind") == "BinaryOperator" and e.get("opcode") == "&&":
+            a, b = cast.kids(e)
+            return atoms(a) | atoms(b)
+        if e.get("kind") == "BinaryOperator" and e.get("opcode") in ("<", ">", "<=", ">="):
+            a, b = (cast.text(cast.strip(x)) for x in cast.kids(e))
+            op = e["opcode"]
+            if op in (">", ">="):
+                a, b, op = b, a, {">": "<", ">=": "<="}[op]
+            return {(a, op, b)}
+        return {("?", cast.text(e), "?")}
+
+    guards = [atoms(cast.kids(x)[0]) for x in cast.walk(kfn) if x.get("kind") == "IfStmt"]
+    want_g = {("0", "<", "temperatures[j]"), ("cutoff_frequency", "<", "f")}
+    rep.instance("R10f", CF, "phpy_get_thermal_properties", f"kernel guard {[sorted(g) for g in guards]}", guards == [want_g],
+                 "the kernel does not restrict the harmonic forms to temperatures[j] > 0 and f > cutoff_frequency", line=tu.line(kfn))
+
+
+def selftest():
+    V = []
+    b = lambda name, file, old, new, rule, expect="", **kw: V.append(dict(name=name, kind="break", file=file, old=old, new=new, rule=rule, expect=expect, **kw))
+    n = lambda name, file, old, new, **kw: V.append(dict(name=name, kind="neutral", file=file, old=old, new=new, **kw))
+    b("entropy: sign of the log term", PY, "return freqs / temp * expVal / (1.0 - expVal) - Kb * np.log(1.0 - expVal)", "return freqs / temp * expVal / (1.0 - expVal) + Kb * np.log(1.0 - expVal)", "R10a", "S + dF/dT")
+    b("heat capacity: exp(+x) form back (NaN at large x)", PY, "        expVal = np.exp(-x)\n        return Kb * x**2 * expVal / (1.0 - expVal) ** 2", "        expVal = np.exp(x)\n        return Kb * x**2 * expVal / (expVal - 1.0) ** 2", "R10c", "mode_cv")
+    b("free energy: zero-point half dropped in Python", PY, "np.log(1.0 - np.exp((-freqs) / (Kb * temp))) + freqs / 2", "np.log(1.0 - np.exp((-freqs) / (Kb * temp)))", "R10a", "documented")
+    b("C heat capacity differs from Python", CF, "        return KB * val1 * val2 * val2;", "        return KB * val1 * val2;", "R10b", "get_heat_capacity")
+    b("C classical entropy misses k_B", CF, "        return KB - KB * log(f / (KB * temperature));", "        return -KB * log(f / (KB * temperature));", "R10a", "classical")
+    b("zero-point sum over all positive modes", PY, "positive_fs = np.extract(freqs > self._cutoff_frequency, freqs)", "positive_fs = np.extract(freqs > 0.0, freqs)", "R10d", "freqs > 0.0")
+    b("C route adds ZPE twice", PY, "fe = props[:, 0] * EvTokJmol + self._zero_point_energy", "fe = props[:, 0] * EvTokJmol + 2 * self._zero_point_energy", "R10e", "fe =")
+    b("entropy not scaled to J on the C route", PY, "entropy = props[:, 1] * EvTokJmol * 1000", "entropy = props[:, 1] * EvTokJmol", "R10e", "entropy =")
+    b("kernel guard admits T = 0", CF, "if (temperatures[j] > 0 && f > cutoff_frequency) {", "if (f > cutoff_frequency) {", "R10f", "kernel guard")
+    b("KB constant drifts", CF, "#define KB 8.6173382568083159E-05", "#define KB 8.6173303E-05", "R10e", "KB")
+    b("python evaluator uses mode_F at T = 0", PY, "        if t > 0:\n            free_energy = self._calculate_thermal_property(mode_F, t)", "        if t >= 0:\n            free_energy = self._calculate_thermal_property(mode_F, t)", "R10f", "run_free_energy")
+    n("heat capacity with x*x", PY, "        return Kb * x**2 * expVal / (1.0 - expVal) ** 2", "        return Kb * x * x * expVal / ((1.0 - expVal) * (1.0 - expVal))")
+    n("zero-point sum vectorised with the cutoff mask", PY, "            for freqs, w in zip(self._frequencies, self._weights):\n                positive_fs = np.extract(freqs > self._cutoff_frequency, freqs)\n                zp_energy += np.sum(positive_fs) * w / 2\n", "            masked = np.where(self._frequencies > self._cutoff_frequency, self._frequencies, 0.0)\n            zp_energy = np.dot(self._weights, masked.sum(axis=1)) / 2\n")
+    return V
